@@ -26,20 +26,22 @@ Definition reads_back (x : query) : Prop :=
 
 Definition C04_full_statement : Prop := forall x, reads_back x.
 
-(* refuted: C02's defects are statements too.  SELECT -(a+b) FROM t renders -"a"+"b", which reads as (-a)+b *)
+(* refuted: C02's remaining defect is a statement-level defect too.  SELECT (NOT a) = b renders NOT "a"="b", which reads
+   as NOT (a = b)  (pypika's own suite pins the un-parenthesised NOT).  The former witness SELECT -(a+b) is repaired
+   (/repo 33fa91c): see C04_repaired below. *)
 Definition w_x : query :=
-  QSel CSQLLite [] false [IT (TNeg (TArith OAdd (TField "a" None None) (TField "b" None None) None))]
+  QSel CSQLLite [] false [IT (TBasic CEq (TNot (TField "a" None None) None) (TField "b" None None) None)]
        [SrcT {| tname := "t"; tschema := []; talias := None |}] [] None None [] [] None None false None.
 
 Definition w_fl : option flat := Eval vm_compute in flat_of w_x.
-Definition w_ts : list stok := [SK KSel; SE KNeg; SE (KAtom """a"""); SE (KOp (BA OAdd)); SE (KAtom """b"""); SK KFrom; SSrc """t"""].
-Definition w_spec : expr := ENeg (EBin (BA OAdd) (EAtom """a""") (EAtom """b""")).      (* what was built *)
-Definition w_read : expr := EBin (BA OAdd) (ENeg (EAtom """a""")) (EAtom """b""").      (* what the text says *)
+Definition w_ts : list stok := [SK KSel; SE KNot; SE (KAtom """a"""); SE (KOp (BC CEq)); SE (KAtom """b"""); SK KFrom; SSrc """t"""].
+Definition w_spec : expr := EBin (BC CEq) (ENot (EAtom """a""")) (EAtom """b""").       (* what was built *)
+Definition w_read : expr := ENot (EBin (BC CEq) (EAtom """a""") (EAtom """b""")).       (* what the text says *)
 Definition w_ast (e : expr) : sel_ast := mkAst false [(e, None)] ["""t"""] [] None [] None [] None None.
 
 Theorem C04_witness :
   (exists fl, flat_of w_x = Some fl /\ flat_toks fl = Some w_ts /\ flat_ast fl = Some (w_ast w_spec))
-  /\ sflatten w_ts = "SELECT -""a""+""b"" FROM ""t"""
+  /\ sflatten w_ts = "SELECT NOT ""a""=""b"" FROM ""t"""
   /\ read_select 100 w_ts = Some (w_ast w_read)
   /\ sel_frag w_x = false.
 Proof.
@@ -72,6 +74,23 @@ Proof.
   exists fl, ts, a. repeat split; auto. exact (flat_text x fl ts E T).
 Qed.
 Print Assumptions C04_on_fragment.
+
+(* ... i.e. the full statement holds for every statement of the fragment (frag02 is now a purely syntactic condition:
+   subcriterion flag off, NOT never an operand, lexically well-formed leaves) *)
+Theorem C04_holds_on_fragment : forall x, sel_frag x = true -> reads_back x.
+Proof.
+  intros x H fl ts a E1 E2 E3. destruct (C04_on_fragment x H) as [fl' [ts' [a' [F1 [F2 [F3 [T R]]]]]]].
+  rewrite E1 in F1. injection F1 as <-. rewrite E2 in F2. injection F2 as <-. rewrite E3 in F3. injection F3 as <-.
+  split; assumption.
+Qed.
+Print Assumptions C04_holds_on_fragment.
+
+(* the former refutation witness is in the fragment now: -(a+b) keeps its parentheses *)
+Definition w_old : query :=
+  QSel CSQLLite [] false [IT (TNeg (TArith OAdd (TField "a" None None) (TField "b" None None) None))]
+       [SrcT {| tname := "t"; tschema := []; talias := None |}] [] None None [] [] None None false None.
+Example C04_repaired : sel_frag w_old = true /\ str_query w_old = Ok "SELECT -(""a""+""b"") FROM ""t""".
+Proof. vm_compute. split; reflexivity. Qed.
 
 (* the text of EVERY flat statement (fragment or not) is its token view flattened *)
 Theorem C04_text_is_tokens : forall x fl ts, flat_of x = Some fl -> flat_toks fl = Some ts -> str_query x = Ok (sflatten ts).
